@@ -1197,18 +1197,24 @@ class Tensor:
             else:
                 constant = True
 
+        try:
+            tensor_out = cls(
+                op_out,
+                constant=constant,
+                copy=False,
+                _creator=f,
+                _base=base,
+            )
+        except Exception as e:
+            # e.g. `constant=False` for an integer-valued result: the operation
+            # is rejected after its forward pass; release the inputs' locks
+            _mem.release_writeability_lock_on_op(_uniques_bases_then_arrs)
+            raise e
+
         # record that a variable participated in that op
         ref_f = ReferenceType(f)  # type: WeakRef[Operation]
         for var in tensor_vars:
             var._ops.add(ref_f)
-
-        tensor_out = cls(
-            op_out,
-            constant=constant,
-            copy=False,
-            _creator=f,
-            _base=base,
-        )
 
         if parent_var is not None:
             parent_var._view_children.append(tensor_out)
